@@ -255,3 +255,66 @@ Theorem tables_are_the_model :
   /\ ublock_empty = map (fun _ => TExact sentinel) single_u_table
   /\ center_factor = 0x1p-1%float.
 Proof. repeat split; reflexivity. Qed.
+
+(* ------------------------------------------------------------------ the skeleton is the model *)
+Lemma first_given_resolve h bs nb k : resolve_sk model_skel h bs nb k = resolve h bs nb k.
+Proof. destruct h, bs as [b|], nb as [n|], k as [k'|]; reflexivity. Qed.
+
+Theorem skeleton_is_the_model :
+  (forall h bs nb k, resolve_sk model_skel h bs nb k = resolve h bs nb k)
+  /\ (forall c rv, dorev_sk model_skel c rv = dorev c rv)
+  /\ (forall dmin bs nhist, edges_sk model_skel dmin bs nhist = edges dmin bs nhist)
+  /\ (forall p o cl, obj_call p (sk_clear_first model_skel) o cl = obj_call p true o cl)
+  /\ (forall hist rev low high, Z.of_nat (length hist) < sk_merge_min model_skel ->
+        merge_last hist rev low high = (hist, rev, low, high))
+  /\ (forall v, Z.of_nat (length v) = sk_single_size model_skel ->
+        exists a, v = [a] /\ ublock v = map (interp_single a 0%Q) single_u_table)
+  /\ (forall p h c rv lo hi bs nb k merge t, resolve h bs nb k = CNone -> same_len c = true ->
+        limits (c_x c) (argsort (c_x c)) lo hi = Ok t ->
+        binner_api p h c rv lo hi bs nb k merge = Err (sk_none_error model_skel))
+  /\ (forall p c lo hi k merge, same_len c = false -> binner_num p c lo hi k merge = Err (fst (sk_len_errors model_skel)))
+  /\ (forall p c d, d_hist d = None -> calc_stats_dict p c d = Err (sk_no_hist_error model_skel)).
+Proof.
+  split; [exact first_given_resolve|].
+  split; [intros c rv; unfold dorev_sk, dorev; cbn [model_skel sk_y_forces_rev sk_w_forces_rev andb]; reflexivity|].
+  split; [reflexivity|]. split; [reflexivity|].
+  split.
+  { intros hist rev low high H. unfold merge_last. cbn [model_skel sk_merge_min] in H.
+    replace (length hist <? 2)%nat with true by (symmetry; apply Nat.ltb_lt; lia). reflexivity. }
+  split.
+  { intros v H. cbn [model_skel sk_single_size] in H. destruct v as [|a [|b t]]; cbn [length] in H; try lia.
+    exists a. split; reflexivity. }
+  split.
+  { intros p h c rv lo hi bs nb k merge t HR HS HL. unfold binner_api. rewrite HR, HS. cbn [negb]. rewrite HL. reflexivity. }
+  split.
+  { intros p c lo hi k merge HS. unfold binner_num. rewrite HS. reflexivity. }
+  intros p c d H. unfold calc_stats_dict. rewrite H. reflexivity.
+Qed.
+
+(* ------------------------------------------------------------------ what the edge checker decides; shape of a result *)
+Theorem edges_check_exact dmin bsize nbin es :
+  edges_check dmin bsize nbin es = true <-> edges_ok dmin bsize nbin es.
+Proof.
+  split; [apply edges_check_sound|].
+  unfold edges_ok, edges_check. intros [HL H]. apply andb_true_iff. split; [apply Z.eqb_eq; exact HL|].
+  apply forallb_forall. intros i Hi. apply zseq_In in Hi. specialize (H i ltac:(lia)).
+  unfold edge_ok, edge_check in *.
+  destruct (nth (Z.to_nat i) es (nan, nan, nan)) as [[lo' hi'] ce]. destruct (edge_tgts dmin bsize i) as [[tl th] tc].
+  destruct H as [H1 [H2 H3]]. apply meets_iff in H1. apply meets_iff in H2. apply meets_iff in H3.
+  rewrite H1, H2, H3. reflexivity.
+Qed.
+
+(* option path rev=: statistics and reverse indices exist exactly when rev is asked for or a second
+   variable or weights were given; otherwise only hist and the edges are reported; one row and one
+   edge triple per bin *)
+Theorem binner_shape p c rv lo hi m b :
+  binner p c rv lo hi m = Ok b ->
+  length (b_edges b) = length (b_hist b)
+  /\ (if dorev c rv then length (b_rows b) = length (b_hist b) else b_rows b = [] /\ b_rev b = []).
+Proof.
+  unfold binner. destruct (negb (same_len c)); [discriminate|].
+  destruct (histogram EngC (c_x c) lo hi m) as [o|e]; [|discriminate].
+  assert (G : forall s n, length (zseq s n) = n) by (intros s n; revert s; induction n; intro s; cbn; auto).
+  destruct (dorev c rv); intro H; injection H as <-; cbn [b_edges b_hist b_rows b_rev];
+    unfold edges, calc_rows; rewrite ?map_length, ?G, ?Nat2Z.id; auto.
+Qed.
